@@ -106,6 +106,24 @@ def check(rep):
         d = layers.token_diff(m, i)
         if d:
             rep.fail("correspondence", f"token layer on {t!r}: " + "; ".join(d[:3]), {"layer": "token", "text": t}, expected=str(m)[:400], observed=str(i)[:400])
+    # ---- tie K: stochastic-object layer, model (Model/Stoch.v) vs Stochastic(text, 0): terminals, tokens in order, descriptor table, family
+    import re
+    mg0 = molast.MolGenAst(random.Random(rep.seed + 202))
+    objs = []
+    for _ in range(150 if quick else 5000):
+        text, _struct = mg0.molecule()
+        objs += [m.group(0) for m in re.finditer(r"\{[^{}]*\}(\|[^|]*\|)?", text)]
+    objs = list(dict.fromkeys(objs))
+    n_obj = 0
+    for t, o in zip(objs, fw.run_driver([layers.stoch_line(t) for t in objs])):
+        evaluations += 1
+        mo, io = layers.parse_model_stoch(o), layers.impl_stoch(t)
+        n_obj += isinstance(io, dict)
+        d = layers.stoch_diff(mo, io)
+        if d:
+            rep.fail("correspondence", f"stochastic-object layer on {t!r}: " + "; ".join(d[:3]), {"layer": "stochastic", "text": t}, expected=str(mo)[:400], observed=str(io)[:400])
+    rep.coverage["objects_vs_model"] = len(objs)
+    rep.coverage["objects_accepted"] = n_obj
     # ---- stochastic objects / molecules: terminals, tokens in order, distribution family and parameters
     mg = molast.MolGenAst(rnd)
     n_mol = 0
